@@ -400,3 +400,66 @@ Proof.
   - f_equal. induction H as [|f fs Hf _ IH]; [reflexivity|]. cbn [map]. rewrite (proj1 (norm_clean f Hf)), IH. reflexivity.
   - eapply Forall_impl; [|exact H]. intros f Hf. exact (proj2 (norm_clean f Hf)).
 Qed.
+
+(* ---- BracketString: without descents (whose [..] the parser does not read) the bracketed text
+   parses back too; both wildcards come back as the bracketed one *)
+Definition norm_frag_b (f : nfrag) : nfrag := match f with NWild _ => NWild false | _ => norm_frag f end.
+Definition no_descent (f : nfrag) : Prop := match f with NDescent => False | _ => True end.
+
+Lemma parse_printed_b fs : forall fuel ld, Forall frag_ok fs -> Forall no_descent fs -> (length fs < fuel)%nat ->
+  parse_frags fuel ld (flat_map print_frag_b fs) = Some (map norm_frag_b fs).
+Proof.
+  induction fs as [|f fs IH]; intros fuel ld Hok Hnd Hf.
+  - destruct fuel; [simpl in Hf; lia|]. reflexivity.
+  - destruct fuel as [|fuel]; [simpl in Hf; lia|]. simpl in Hf. cbn [map flat_map].
+    pose proof (Forall_inv Hok) as Hokf. pose proof (Forall_inv_tail Hok) as Hoks.
+    pose proof (Forall_inv Hnd) as Hndf. pose proof (Forall_inv_tail Hnd) as Hnds.
+    destruct f as [k|i|star| |ms|l].
+    + cbn [print_frag_b norm_frag_b norm_frag List.app]. rewrite <- !app_assoc. cbn [List.app].
+      rewrite parse_bracket_text. rewrite IH by (assumption || lia). reflexivity.
+    + change (print_frag_b (NNth i)) with (print_frag (NNth i)). rewrite parse_nth. rewrite IH by (assumption || lia). reflexivity.
+    + cbn [print_frag_b norm_frag_b List.app parse_frags].
+      change (beqb x5b x2e) with false. change (beqb x5b x2a) with false. change (beqb x5b x5b) with true. cbn iota.
+      cbn [skip_space]. change (beqb x2a x20) with false. cbn iota. change (beqb x2a x3a) with false. change (beqb x2a x2a) with true. cbn iota.
+      cbn [skip_space]. change (beqb x5d x20) with false. cbn iota. change (beqb x5d x5d) with true. cbn iota.
+      rewrite IH by (assumption || lia). reflexivity.
+    + contradiction.
+    + change (print_frag_b (NUnion ms)) with (print_frag (NUnion ms)). destruct ms as [|m1 [|m2 ms]].
+      * contradiction.
+      * destruct m1 as [s|i].
+        { cbn [print_frag print_members print_member norm_frag_b norm_frag List.app]. rewrite <- !app_assoc. cbn [List.app].
+          rewrite parse_bracket_text. rewrite IH by (assumption || lia). reflexivity. }
+        { change (print_frag (NUnion [inr i])) with (print_frag (NNth i)). rewrite parse_nth.
+          rewrite IH by (assumption || lia). reflexivity. }
+      * rewrite parse_union. rewrite IH by (assumption || lia).
+        assert (Hn : norm_frag_b (NUnion (m1 :: m2 :: ms)) = NUnion (m1 :: m2 :: ms)) by (destruct m1; reflexivity).
+        rewrite Hn. reflexivity.
+    + change (print_frag_b (NSlice l)) with (print_frag (NSlice l)). rewrite parse_slice. rewrite IH by (assumption || lia). reflexivity.
+Qed.
+
+Lemma no_descent_end fs : Forall no_descent fs -> ends_in_descent fs = false.
+Proof.
+  intro H. unfold ends_in_descent. destruct (rev fs) as [|f r] eqn:E; [reflexivity|].
+  assert (Hin : In f fs) by (apply in_rev; rewrite E; left; reflexivity).
+  rewrite Forall_forall in H. specialize (H f Hin). destruct f; try reflexivity. contradiction.
+Qed.
+
+Lemma printed_length_b fs : (length fs <= length (flat_map print_frag_b fs))%nat.
+Proof.
+  induction fs as [|f fs IH]; [simpl; lia|]. cbn [flat_map length]. rewrite app_length.
+  assert (1 <= length (print_frag_b f))%nat.
+  { destruct f as [k|i|star| |ms|l]; simpl; lia. }
+  lia.
+Qed.
+
+Theorem bracket_text_round_trip fs : Forall frag_ok fs -> Forall no_descent fs ->
+  parse_path (print_path_b fs) = Some (map norm_frag_b fs).
+Proof.
+  intros Hok Hnd. unfold parse_path, print_path_b. rewrite (no_descent_end fs Hnd), app_nil_r.
+  change (beqb x24 x24) with true. cbn iota.
+  apply parse_printed_b; [exact Hok|exact Hnd|]. pose proof (printed_length_b fs). lia.
+Qed.
+
+(* the recorded finding in the model: a descent's bracket form does not parse *)
+Theorem bracket_descent_refuted : parse_path (print_path_b [NDescent; NChild [x61]]) = None.
+Proof. vm_compute. reflexivity. Qed.
